@@ -635,6 +635,84 @@ fn eval_process(c: &crate::props::c07::InitCase) -> Outcome {
 }
 
 // ------------------------------------------------------------------------------------------
+// nothing taken from the process environment: the same history in child processes with different environment variables
+
+fn env_cases(_t: Tier) -> Vec<ValidCase> {
+    // small A/V histories with rejected calls of every kind (their error values carry formatted diagnostics)
+    let mut v = Vec::new();
+    for (codec, audio) in [(0u8, 1u8), (1, 2), (2, 7), (3, 1)] {
+        let mut c = crate::scenario::long_cases(false).into_iter().next().unwrap();
+        c.cfg.codec = codec;
+        c.cfg.audio = audio;
+        c.cfg.title = Some("env \u{e9}".into());
+        c.cfg.ctime = Some(1_700_000_000);
+        c.order = 1;
+        if let Some(e) = c.expand.as_mut() {
+            e.nv = 6;
+            e.na = 8;
+        }
+        c.rejects = vec![(1, 2), (3, 3), (2, 0), (4, 1), (5, 4), (6, 5)];
+        v.push(c);
+    }
+    v
+}
+
+fn eval_env(c: &ValidCase) -> Outcome {
+    let mut o = Outcome::default();
+    o.nontrivial = true;
+    let exe = match std::env::current_exe() {
+        Ok(e) => e,
+        Err(e) => {
+            o.unconstrained.push(format!("no current_exe: {}", e));
+            return o;
+        }
+    };
+    let json = serde_json::to_string(c).unwrap_or_default();
+    let vars = ["NO_COLOR", "CLICOLOR", "CLICOLOR_FORCE", "FORCE_COLOR", "TERM", "LANG", "LC_ALL", "TZ", "COLUMNS", "LINES", "RUST_BACKTRACE", "RUST_LOG", "MUXIDE_DEBUG", "DEBUG", "HOME", "TMPDIR", "USER"];
+    let run = |set: &[(&str, &str)]| -> Option<String> {
+        let mut cmd = std::process::Command::new(&exe);
+        cmd.arg("case-digest").arg(&json);
+        for k in vars {
+            cmd.env_remove(k);
+        }
+        for (k, val) in set {
+            cmd.env(k, val);
+        }
+        match cmd.output() {
+            Ok(out) if out.status.success() => Some(String::from_utf8_lossy(&out.stdout).to_string()),
+            _ => None,
+        }
+    };
+    let base = match run(&[]) {
+        Some(b) => b,
+        None => {
+            o.unconstrained.push("child process failed".into());
+            return o;
+        }
+    };
+    let variants: [&[(&str, &str)]; 5] = [
+        &[("NO_COLOR", "1"), ("TERM", "dumb"), ("CLICOLOR", "0")],
+        &[("CLICOLOR_FORCE", "1"), ("FORCE_COLOR", "3"), ("TERM", "xterm-256color"), ("COLUMNS", "20"), ("LINES", "5")],
+        &[("LANG", "ja_JP.UTF-8"), ("LC_ALL", "tr_TR.UTF-8"), ("TZ", "Asia/Tokyo")],
+        &[("RUST_BACKTRACE", "full"), ("RUST_LOG", "trace"), ("MUXIDE_DEBUG", "1"), ("DEBUG", "1")],
+        &[("HOME", "/nonexistent"), ("TMPDIR", "/nonexistent"), ("USER", "nobody"), ("TZ", "America/St_Johns")],
+    ];
+    for set in variants {
+        o.sub_evals += 1;
+        match run(set) {
+            Some(x) if x == base => {}
+            Some(x) => {
+                let what = if x.lines().next() != base.lines().next() { "return_values" } else { "output_bytes" };
+                o.fail("environment", format!("environment.{}", what), format!("the same history gives different {} in a process started with {:?}", what.replace('_', " "), set));
+                break;
+            }
+            None => o.unconstrained.push(format!("child process failed with {:?}", set)),
+        }
+    }
+    o
+}
+
+// ------------------------------------------------------------------------------------------
 // wall-clock independence: the same history with real pauses inserted
 
 #[derive(Clone, Debug, Serialize, Deserialize, PartialEq, Eq, Hash)]
@@ -784,6 +862,12 @@ pub fn def() -> PropertyDef {
                 cases: process_cases,
                 eval: eval_process,
                 note: "fixed list: five fragmented configurations; after one was used, each single-field twin's init segment is compared with the one a fresh child process (verif frag-init) returns for it",
+            }),
+            Box::new(LSub {
+                name: "environment",
+                cases: env_cases,
+                eval: eval_env,
+                note: "fixed list: four A/V histories with rejected calls of every kind, each run in child processes (verif case-digest) with colour / terminal / locale / time-zone / logging / home variables unset and set in five combinations; return values (with error texts) and bytes must agree",
             }),
             Box::new(LSub {
                 name: "wall_clock",
